@@ -371,7 +371,8 @@ package tree
 //@ define INV3() bool = forall n *Node :: {n.neigh} {n.br} allocated(n) ==> I3(n)
 //@ define INV4() bool = forall n *Node :: {n.neigh} {n.br} allocated(n) ==> I4(n)
 //@ define INV5() bool = forall n *Node :: {n.neigh} {n.br} allocated(n) ==> I5(n)
-//@ define INV() bool = INV1() && INV2() && INV3() && INV5() && OWN()
+//@ define INVE() bool = forall e *Edge :: {e.left} {e.right} allocated(e) ==> alloc_ok(e.left) && alloc_ok(e.right)
+//@ define INV() bool = INV1() && INV2() && INV3() && INV5() && OWN() && INVE()
 //@ define adjacent(a *Node, b *Node) bool = exists i int :: {a.neigh[i]} 0 <= i && i < len(a.neigh) && a.neigh[i] == b
 
 //@ func (*tree.Tree).ConnectNodes
@@ -392,6 +393,8 @@ package tree
 //@   ensures [inv4_case_child_new_slot] exists j int :: 0 <= j && j < deg(parent) && parent.neigh[j] == child && parent.br[j] == child.br[deg(child) - 1]
 //@   ensures [inv5] INV5()
 //@   ensures [own] OWN()
+//@   ensures [inve] INVE()
+//@   ensures [orientation_kept_when_the_child_had_no_parent] old(ORI()) && (forall k int :: {old(child.br[k])} 0 <= k && k < old(deg(child)) ==> old(child.br[k].right) != child) ==> ORI()
 
 //@ func (*tree.Node).NodeIndex
 //@   requires n != nil
@@ -455,6 +458,7 @@ package tree
 //@   ensures [inv3_every_branch_still_joins_its_node_and_the_neighbour_in_its_slot] INV3()
 //@   ensures [inv5] INV5()
 //@   ensures [own] OWN()
+//@   ensures [inve] INVE()
 //@   ensures [orientation_at_most_one_parent] ORI()
 //@   ensures [orientation_root_has_no_parent] ROOTOK(n.t)
 
@@ -485,6 +489,7 @@ package tree
 //@   ensures [inv3_every_branch_still_joins_its_node_and_the_neighbour_in_its_slot] INV3()
 //@   ensures [inv5] INV5()
 //@   ensures [own] OWN()
+//@   ensures [inve] INVE()
 //@   ensures [orientation_at_most_one_parent] ORI()
 //@   ensures [orientation_root_has_no_parent] ROOTOK(n.t)
 
@@ -525,4 +530,30 @@ package tree
 //@   ensures [inv3] result3 == nil ==> INV3()
 //@   ensures [inv5] result3 == nil ==> INV5()
 //@   ensures [own] result3 == nil ==> OWN()
+//@   ensures [inve] result3 == nil ==> INVE()
 //@   ensures [orientation] result3 == nil ==> ORI()
+
+// ---------------------------------------------------------------------------
+// Generators (property C16)
+// ---------------------------------------------------------------------------
+
+//@ func (*tree.Tree).RerootFirst
+//@   flag treeop
+//@   requires t != nil
+
+//@ define edgeok(e *Edge) bool = allocated(e) && allocated(e.left) && allocated(e.right) && e.left != e.right && e.length >= 0.0
+
+//@ func tree.RandomUniformBinaryTree
+//@   flag noframe
+//@   flag lightcalls
+//@   ensures [too_few_tips_is_an_error_not_a_crash] (nbtips < 3 && !rooted) || (nbtips < 3 && rooted) ==> result0 == nil && result1 != nil
+//@   ensures [a_tree_or_an_error] result0 == nil ==> result1 != nil
+//@   call math/rand.Intn [insertion_branch_drawn_among_all_branches_created_so_far] a0 == len(edges)
+//@   call (*tree.Tree).GraftTipOnEdge [new_tip_grafted_on_the_drawn_branch] a2 == edges[i_edge] && a1 == n
+//@   loop 1
+//@     invariant [tree_object] t != nil
+//@     step [first_round_rooted_second_root_branch_gets_a_non_negative_length] len(edges) == 0 && rooted ==> next(edges)[1] != nil && next(edges)[1].length >= 0.0
+//@     step [first_round_unrooted_first_branch_gets_a_non_negative_length] len(edges) == 0 && !rooted ==> next(edges)[0] != nil && next(edges)[0].length >= 0.0
+//@     step [later_rounds_both_new_branches_get_a_non_negative_length] len(edges) > 0 ==> next(edges)[len(edges)] != nil && next(edges)[len(edges)].length >= 0.0 && next(edges)[len(edges) + 1] != nil && next(edges)[len(edges) + 1].length >= 0.0
+//@     invariant [at_least_one_branch_after_the_first_round] i >= 2 ==> len(edges) >= 1
+//@     step [two_branches_added_per_grafted_tip_one_or_two_in_the_first_round] len(next(edges)) == len(edges) + (len(edges) == 0 ? (rooted ? 2 : 1) : 2)
